@@ -36,6 +36,8 @@ type nodeMonitor struct {
 	// C02: distinct sign contents per (kind,h,r), across restarts.
 	signed   int
 	contents map[string]map[string]bool
+	signLife map[string][]int // process lifetime of each distinct content, in signing order
+	life     int
 
 	finSaved   map[uint64]bool
 	finReq     map[uint64]string // height -> hash requested
@@ -60,7 +62,7 @@ type roundMon struct {
 }
 
 func newNodeMonitor(o *oracles, n *node) *nodeMonitor {
-	return &nodeMonitor{o: o, n: n, rounds: map[[2]uint64]*roundMon{}, contents: map[string]map[string]bool{},
+	return &nodeMonitor{o: o, n: n, rounds: map[[2]uint64]*roundMon{}, contents: map[string]map[string]bool{}, signLife: map[string][]int{},
 		finSaved: map[uint64]bool{}, finReq: map[uint64]string{}, afterStart: true}
 }
 
@@ -118,6 +120,7 @@ func (m *nodeMonitor) check() {
 		e := n.trace[m.pos]
 		switch e.kind {
 		case "start":
+			m.life++
 			m.afterStart = true
 			m.entered = false
 			// A new process lifetime may consult the strategy again; what must not repeat is a different signature (C02).
@@ -212,9 +215,9 @@ func (m *nodeMonitor) check() {
 			if m.contents[k] == nil {
 				m.contents[k] = map[string]bool{}
 			}
-			m.contents[k][e.x] = true
-			if len(m.contents[k]) > 1 {
-				o.violate("C02", "double-sign:"+e.a, fmt.Sprintf("the local validator signed %d different %s contents for %d/%d", len(m.contents[k]), e.a, e.h, e.r))
+			if !m.contents[k][e.x] {
+				m.contents[k][e.x] = true
+				m.signLife[k] = append(m.signLife[k], m.life)
 			}
 			if w.idxOf(e.h, n.keyIdx) < 0 {
 				o.violate("C07", "signed-while-not-in-validator-set", fmt.Sprintf("signed a %s at height %d although its key is not in that height's validator set", e.a, e.h))
@@ -371,6 +374,14 @@ func (m *nodeMonitor) quiescent() {
 	if n.e == nil {
 		return
 	}
+	alive, idle := m.kernelAlive()
+	if !alive {
+		return // a state machine whose kernel has returned waits in no step; reported under C09 by the liveness probe
+	}
+	if !idle {
+		o.res.Count("quiescent_points_with_state_machine_inside_a_handler", 1)
+		return
+	}
 	ts := n.outstandingTimers()
 	o.res.Count("quiescent_points_monitored", 1)
 	if len(ts) > 1 {
@@ -403,9 +414,6 @@ func (m *nodeMonitor) quiescent() {
 	rm := m.rd(m.curH, m.curR)
 	if !rm.enterReleased {
 		return
-	}
-	if !m.kernelAlive() {
-		return // reported by the liveness probe
 	}
 	h, r := m.curH, m.curR
 	total := w.total(h)
@@ -468,15 +476,37 @@ func (m *nodeMonitor) quiescent() {
 	}
 }
 
-func (m *nodeMonitor) kernelAlive() bool {
+// kernelAlive reports whether the state machine kernel goroutine exists and whether it rests in its main select
+// (idle). A kernel that is inside an event handler - in this harness: blocked in one of the 100 ms guarded sends to
+// the consensus manager while the fake clock stands still - is in the middle of a transition, not at a point where
+// "the step it waits in" is defined.
+func (m *nodeMonitor) kernelAlive() (alive, idle bool) {
 	buf := make([]byte, 1<<19)
 	buf = buf[:runtime.Stack(buf, true)]
-	return strings.Contains(string(buf), "tmstate.(*StateMachine).kernel(")
+	for _, g := range strings.Split(string(buf), "\n\n") {
+		if !strings.Contains(g, "tmstate.(*StateMachine).kernel(") {
+			continue
+		}
+		alive, idle = true, true
+		for _, line := range strings.Split(g, "\n") {
+			if i := strings.Index(line, "tmstate.(*StateMachine)."); i >= 0 {
+				fn := line[i+len("tmstate.(*StateMachine)."):]
+				if j := strings.IndexByte(fn, '('); j >= 0 {
+					fn = fn[:j]
+				}
+				if fn != "kernel" && fn != "handleLiveEvent" && fn != "handleCatchupEvent" {
+					idle = false
+				}
+			}
+		}
+	}
+	return
 }
 
 // final: the engine's kernels must still be running (a kernel that returned silently has stopped serving).
 func (m *nodeMonitor) final() {
 	n, o := m.n, m.o
+	m.doubleSigns()
 	if n.e == nil {
 		return
 	}
@@ -517,4 +547,42 @@ func atoi(s string) int {
 		n = n*10 + int(c-'0')
 	}
 	return n
+}
+
+// doubleSigns (C02): the key signed more than one distinct content for one kind/height/round. The signature names
+// whether the contents were signed in different process lifetimes and whether a content other than the recorded one
+// reached the mirror (the round-store wrapper saw it persisted).
+func (m *nodeMonitor) doubleSigns() {
+	n, o := m.n, m.o
+	keys := make([]string, 0, len(m.contents))
+	for k := range m.contents {
+		keys = append(keys, k)
+	}
+	sort.Strings(keys)
+	for _, k := range keys {
+		if len(m.contents[k]) < 2 {
+			continue
+		}
+		parts := strings.Split(k, "|")
+		sig := "double-sign:" + parts[0]
+		lives := map[int]bool{}
+		for _, l := range m.signLife[k] {
+			lives[l] = true
+		}
+		if len(lives) == len(m.signLife[k]) {
+			sig += ":one-per-process-lifetime"
+		}
+		kind := "p"
+		if parts[0] == "precommit" {
+			kind = "c"
+		}
+		if parts[0] == "prevote" || parts[0] == "precommit" {
+			if n.wrapKeys[kind+"|"+parts[1]+"|"+parts[2]] {
+				sig += ":unrecorded-one-released"
+			} else {
+				sig += ":only-the-recorded-one-released"
+			}
+		}
+		o.violate("C02", sig, fmt.Sprintf("the local validator signed %d different %s contents for %s/%s (process lifetimes of the signatures: %v)", len(m.contents[k]), parts[0], parts[1], parts[2], m.signLife[k]))
+	}
 }
